@@ -1359,3 +1359,62 @@ Proof.
     destruct (Hn l sr Hl Hsr) as [_ [v [rc [[Hv [res [Hres Hrc]]] Hc]]]].
     exists v, res, rc. auto.
 Qed.
+
+(* ------------------------------------------------------------------------------------------- *)
+(* Strictly newer stamps when a validator has one content per round. *)
+
+(* all relay entries of the validators with public key p in round r carry the same fee recipient
+   and gas limit (no per-relay differences for that validator in that round) *)
+Definition uniform_pub (r : round_in) (p : N) : Prop :=
+  forall v v' res res' rc rc',
+    In v (r_vals r) -> In v' (r_vals r) -> v_pub v = p -> v_pub v' = p ->
+    v_res v = Some res -> v_res v' = Some res' -> In rc (rs_relays res) -> In rc' (rs_relays res') ->
+    rc_fee rc = rc_fee rc' /\ rc_gas rc = rc_gas rc'.
+
+Lemma stamp_in_round : forall ops, increasing ops ->
+  forall i ri erri reqsi relaysi nodesi q,
+  nth_error ops i = Some (ORound ri) ->
+  nth_error (snd (run init ops)) i = Some (OutRound erri reqsi relaysi nodesi) ->
+  In q (all_reqs (snd (run init ops))) -> q_stamp q = r_now ri -> In q reqsi.
+Proof.
+  intros ops Hinc i ri erri reqsi relaysi nodesi q Hop Hout Hq Hs.
+  apply In_all_reqs in Hq as [k [x [Hx Hqx]]].
+  destruct (out_req _ _ [] _ _ _ J_init Hx Hqx) as [rk [_ [_ [Hopk [_ [_ [_ Hsk]]]]]]].
+  destruct (Nat.lt_trichotomy k i) as [Hlt|[->|Hlt]].
+  - pose proof (increasing_nth _ Hinc k i rk ri Hlt Hopk Hop). lia.
+  - rewrite Hout in Hx. injection Hx as <-. exact Hqx.
+  - pose proof (increasing_nth _ Hinc i k ri rk Hlt Hop Hopk). lia.
+Qed.
+
+Lemma stamps_strict : forall ops, increasing ops ->
+  forall i j ri rj erri reqsi relaysi nodesi errj reqsj relaysj nodesj,
+  (i < j)%nat ->
+  nth_error ops i = Some (ORound ri) ->
+  nth_error ops j = Some (ORound rj) ->
+  nth_error (snd (run init ops)) i = Some (OutRound erri reqsi relaysi nodesi) ->
+  nth_error (snd (run init ops)) j = Some (OutRound errj reqsj relaysj nodesj) ->
+  forall a sri a' srj, mem_rm relaysi a sri -> mem_rm relaysj a' srj ->
+  ct_pub (sr_content sri) = ct_pub (sr_content srj) ->
+  sr_content sri <> sr_content srj ->
+  uniform_pub ri (ct_pub (sr_content sri)) ->
+  sr_stamp sri < sr_stamp srj.
+Proof.
+  intros ops Hinc i j ri rj erri reqsi relaysi nodesi errj reqsj relaysj nodesj Hlt Hopi Hopj Houti Houtj
+         a sri a' srj Hmi Hmj Hpub Hne Hun.
+  destruct (stamps_along ops Hinc i j ri rj erri reqsi relaysi nodesi errj reqsj relaysj nodesj Hlt Hopi Hopj
+              Houti Houtj a sri a' srj Hmi Hmj Hpub) as [_ H].
+  destruct (H Hne) as [Hs|Hs]; [exact Hs|]. exfalso.
+  pose proof (increasing_nth _ Hinc i j ri rj Hlt Hopi Hopj) as Hnow.
+  destruct (reuse_unchanged ops j rj errj reqsj relaysj nodesj Hopj Houtj a' srj Hmj ltac:(lia)) as [q [Hq1 Hq2]].
+  apply last_ok_some in Hq1 as [Hin _]. apply In_all_reqs_firstn in Hin.
+  assert (Hqs : q_stamp q = r_now ri) by (rewrite Hq2 in Hs; exact Hs).
+  pose proof (stamp_in_round ops Hinc i ri erri reqsi relaysi nodesi q Hopi Houti Hin Hqs) as Hqi.
+  destruct (history_round _ _ [] _ _ _ _ _ _ J_init Hopi Houti) as [Hrel [_ Hrq]].
+  destruct (Hrq q Hqi) as [v [rc [[Hv [res [Hres Hrc]]] [_ [Hqc _]]]]].
+  destruct (Hrel _ _ Hmi) as [_ [_ [v' [rc' [[Hv' [res' [Hres' Hrc']]] [_ Hc']]]]]].
+  assert (Hcj : sr_content srj = q_content q) by (rewrite Hq2; reflexivity).
+  assert (Hp1 : v_pub v' = ct_pub (sr_content sri)) by (rewrite Hc'; reflexivity).
+  assert (Hp2 : v_pub v = ct_pub (sr_content sri)) by (rewrite Hpub, Hcj, Hqc; reflexivity).
+  destruct (Hun v v' res res' rc rc' Hv Hv' Hp2 Hp1 Hres Hres' Hrc Hrc') as [Hf Hg].
+  apply Hne. rewrite Hcj, Hqc, Hc'. unfold content_of. rewrite Hf, Hg, Hp1, Hp2. reflexivity.
+Qed.
